@@ -17,6 +17,10 @@ OBLIGATIONS = [
        functions=[S + "box.py:move_inside_box", S + "box.py:coord_to_fraction", S + "box.py:fraction_to_coord"],
        stubs=STUBS,
        bounds="6 cells, every point m/8 with |m| <= 400 per axis: move_inside_box has fractional coordinates in [0,1) and moves by a lattice vector; fraction_to_coord(coord_to_fraction(p)) == p"),
+    SX("sx_remove_pbc", "sx_c15", "ob_remove_pbc", cls="S", thorough=1800, parts={"quick": 1, "thorough": 3}, tiers=("thorough",),
+       functions=[S + "box.py:remove_pbc_from_coord", S + "geometry.py:index_displacement/_call_non_index_function/displacement"],
+       stubs=STUBS + ["the function-level import of index_displacement is routed to the transformed geometry module"],
+       bounds="one model, chain of 3 atoms with coordinates m/8, |m| <= 48 symbolic, 3 orthorhombic cells (one rotated): every atom moves by a lattice vector; consecutive atoms end one minimum-image displacement apart. Stacks of models are NOT covered (the two-model formula does not finish)"),
 ]
 EXPLANATION = "C15 (periodic clauses only): displacement is a shortest periodic image and box helpers act by lattice vectors."
 ASSUMPTIONS = ["real-number semantics: float32/float64 rounding of numpy is outside the claim",
